@@ -343,6 +343,10 @@ pub struct BatchCase {
     pub runs: u64,
     pub problems: u8,
     pub threads: u8,
+    /// run the shipped particle-swarm template (whose components keep memories across iterations) instead of the
+    /// generated configuration
+    #[serde(default)]
+    pub pso: bool,
 }
 
 pub struct BatchCheck;
@@ -379,7 +383,14 @@ fn log_setup(state: &mut State<RealP>) -> ExecResult<()> {
 }
 
 fn batch_oracle(c: &BatchCase) -> Result<(), Failure> {
-    let cfg = c.conf.build();
+    let cfg = if c.pso {
+        match crate::fixtures::run::build_real(&crate::fixtures::run::Tpl::Pso { n: 2 + c.conf.pop % 5, w0: 0.9, w1: 0.4, c1: 1.5, c2: 1.5, vmax: 1.0 }, c.conf.iters.max(2)) {
+            Some(Ok(cfg)) => cfg,
+            _ => return Ok(()),
+        }
+    } else {
+        c.conf.build()
+    };
     let nprob = (c.problems % 3) as usize + 1;
     let problems: Vec<RealP> = (0..nprob)
         .map(|k| {
@@ -493,7 +504,7 @@ fn det_strategy(max_iters: u32) -> impl Strategy<Value = DetCase> {
 }
 
 pub fn run_all(ctx: &mut Ctx, replay: Option<&Path>) {
-    ctx.rule("determinism: case = (template with valid parameters and instance, or a generated configuration of shipped components; seed; thread-pool size in {1,2,3,4,8,16}; latency-jitter stream); the digest (every population level with solutions bit-exact and objectives, best individual, Evaluations, Iterations, serialised log) of a sequential unjittered run is compared with: a second sequential run, a sequential run with jittered objective latency, the parallel evaluator in the chosen pool and in a 16-thread pool with different jitter, the cloned configuration, a clone of the clone run in parallel, and the same configuration object after it has been run on another instance of the problem type (other dimension and domain / matrix); generated configurations optionally contain one of the four diversity measures (their state is part of the digest) and populations of 130-139 individuals; non-trivial = a parallel variant in which objective calls actually completed out of call order (measured by the instrumented objective). random: Random::new(seed) twice gives identical streams and identical children recursively (depth <= 3), different seeds give different 16-word prefixes, config() reports name/seed, children keep the generator type, optimize_with keeps a user-supplied generator and provides one otherwise. batch: par_experiment over 0-8 runs, 1-3 named problems, pools of 1..16 threads: exact file set (configuration.ron + name_run.cbor), identical files across pool sizes, every log equal to a direct optimize_with(Random::new(run)); distinct by case");
+    ctx.rule("determinism: case = (template with valid parameters and instance, or a generated configuration of shipped components; seed; thread-pool size in {1,2,3,4,8,16}; latency-jitter stream); the digest (every population level with solutions bit-exact and objectives, best individual, Evaluations, Iterations, serialised log) of a sequential unjittered run is compared with: a second sequential run, a sequential run with jittered objective latency, the parallel evaluator in the chosen pool and in a 16-thread pool with different jitter, the cloned configuration, a clone of the clone run in parallel, and the same configuration object after it has been run on another instance of the problem type (other dimension and domain / matrix); generated configurations optionally contain one of the four diversity measures (their state is part of the digest) and populations of 130-139 individuals; non-trivial = a parallel variant in which objective calls actually completed out of call order (measured by the instrumented objective). random: Random::new(seed) twice gives identical streams and identical children recursively (depth <= 3), different seeds give different 16-word prefixes, config() reports name/seed, children keep the generator type, optimize_with keeps a user-supplied generator and provides one otherwise. batch: par_experiment (generated configurations or the shipped particle-swarm template) over 0-8 runs, 1-3 named problems, pools of 1..16 threads: exact file set (configuration.ron + name_run.cbor), identical files across pool sizes, every log equal to a direct optimize_with(Random::new(run)); distinct by case");
     ctx.assume("rayon's scheduler is not owned by the harness: pool sizes and pseudo-random objective latencies perturb completion order (measured), they do not enumerate interleavings");
     let d = DetCheck;
     let r = RngCheck;
@@ -508,5 +519,5 @@ pub fn run_all(ctx: &mut Ctx, replay: Option<&Path>) {
     ctx.random(&d, det_strategy(10), ctx.tier.pick(500, 5000));
     ctx.exhaustive(&r, "seeds {0, 1, 2, MAX, MAX-1, 0xDEADBEEF} x other seed x children depth 0..3", [0u64, 1, 2, u64::MAX, u64::MAX - 1, 0xDEAD_BEEF].into_iter().flat_map(|s| [0u64, 1, 3, u64::MAX].into_iter().flat_map(move |o| (0u8..4).map(move |d| RngCase { seed: s, other: o, depth: d }))));
     ctx.random(&r, (any::<u64>(), any::<u64>(), 0u8..4).prop_map(|(seed, other, depth)| RngCase { seed, other, depth }), ctx.tier.pick(2000, 20_000));
-    ctx.random(&b, (gen_conf_strategy(4), 0u64..9, 0u8..3, prop_oneof![Just(1u8), Just(4), Just(16)]).prop_map(|(conf, runs, problems, threads)| BatchCase { conf, runs, problems, threads }), ctx.tier.pick(25, 250));
+    ctx.random(&b, (gen_conf_strategy(4), 0u64..9, 0u8..3, prop_oneof![Just(1u8), Just(4), Just(16)], prop_oneof![2 => Just(false), 1 => Just(true)]).prop_map(|(conf, runs, problems, threads, pso)| BatchCase { conf, runs, problems, threads, pso }), ctx.tier.pick(25, 250));
 }
